@@ -18,7 +18,7 @@ pub const FLOORS: &[&str] = &[
     "origin:default", "origin:other", "origin:ge8000", "image_straddles_8000", "break_or_orig_interleaved",
     "assembly_after_memory_was_modified", "label_like_register_with_digits", "break_table_row", "break_table_row_truncated",
     "break_table_row_multibyte", "break_table_row_without_statement", "image_crosses_fe00", "label_shaped_like_number_or_register",
-    "eval_of_a_line_with_its_label_in_front", "stmt:continued_on_the_next_line", "first_statement_at_byte_zero_without_operands",
+    "eval_of_a_line_with_its_label_in_front", "stmt:continued_on_the_next_line", "first_statement_at_byte_zero_without_operands", "label_in_front_of_break",
 ];
 
 pub fn run(cfg: &Cfg, col: &mut Collector) {
@@ -62,6 +62,16 @@ fn one_case(seed: u64, i: u64) -> CaseOut {
     let mut p = gen_program(&mut rng, &o);
     if origin.is_none() {
         p.items.retain(|it| !matches!(it, Item::Orig(_)));
+    }
+    // a label followed by `.break` (or standing in front of `.orig`) marks the next statement like any other label
+    if rng.chance(1, 4) {
+        let stmt_positions: Vec<usize> = p.items.iter().enumerate().filter(|(_, it)| matches!(it, Item::Stmt { .. })).map(|(k, _)| k).collect();
+        if !stmt_positions.is_empty() {
+            let at = *rng.pick(&stmt_positions);
+            let name = format!("{}{}", rng.s(&["brk_at_", "Stop", "chk"]), at);
+            p.items.insert(at, Item::LabelBreak(name));
+            out.class("label_in_front_of_break");
+        }
     }
     // (sources that will get a byte-order mark in front start with a labelled statement nobody refers to)
     if i % 31 == 17 {
